@@ -191,6 +191,23 @@ class Gen:
             sc.add("ls", "ls %s" % hx(g), kind="ls")
             if rng.random() < 0.4:
                 sc.add("lsstaged", "lsstaged %s" % hx(g), kind="ls")
+            # character classes, alternatives and escapes: outside the Lean glob model (kind "skip": judged by the
+            # listing oracle only)
+            if all(ord(c) < 128 for c in frag) and frag:
+                k = rng.randrange(len(frag))
+                c = frag[k]
+                other = rng.choice("qzx0")
+                gx = rng.choice(["".join(frag[:k]) + "[%s%s]" % (c, other) + "".join(frag[k + 1:]),
+                                 "".join(frag[:k]) + "[!%s]" % other + "".join(frag[k + 1:]),
+                                 "".join(frag[:k]) + "[%s-%s]" % (c, c) + "".join(frag[k + 1:]),
+                                 "".join(frag[:k]) + "{%s,%s}" % ("".join(frag[k:]), other * 2),
+                                 "{%s,%s}" % ("".join(frag), other),
+                                 "".join(frag[:k]) + "\\" + "".join(frag[k:]),
+                                 "".join(frag[:k]) + "[%s]" % other + "".join(frag[k + 1:])])
+                if "/" not in gx and "-" not in frag and "]" not in frag and "," not in frag:
+                    sc.add("ls", "ls %s" % hx(gx), kind="skip")
+                    if rng.random() < 0.4:
+                        sc.add("lsstaged", "lsstaged %s" % hx(gx), kind="skip")
 
     def observe_main(self, oid):
         sc = self.sc
